@@ -217,6 +217,7 @@ class C18(Prop):
             n = draw(st.integers(2, 6))
             calls = [[draw(st.sampled_from(KINDS)), draw(st.sampled_from(vs)), draw(text)] for _ in range(n)]
             return {'calls': calls, 'fresh_grammars': draw(st.integers(0, 5)) == 0, 'pristine': draw(st.integers(0, 2)) == 0,
+                    'stress': tier == 'thorough' and draw(st.integers(0, 3)) == 0,
                     'schedule': draw(st.lists(st.integers(1, 120), min_size=8, max_size=60))}
         return case()
 
@@ -268,6 +269,36 @@ class C18(Prop):
                 d = fp_diff(f1, f3)
                 if d:
                     fail = ('shared-state-changed-by-threads:' + d[0], 'sections: %r' % d[:6])
+        # (4) secondary, non-deterministic stress tier: real preemption at a tiny switch interval (can only add failures)
+        if fail is None and case.get('stress') and len(calls) >= 2:
+            import threading
+            classes.append('preemptive-stress')
+            old_iv = sys.getswitchinterval()
+            sys.setswitchinterval(1e-6)
+            outs = [None] * len(calls)
+
+            def work(i):
+                res = None
+                for _ in range(3):
+                    r = norm(run_call(calls[i]))
+                    if res is not None and r != res:
+                        res = ['UNSTABLE', res, r]
+                        break
+                    res = r
+                outs[i] = res
+            try:
+                ts = [threading.Thread(target=work, args=(i,)) for i in range(len(calls))]
+                for t in ts:
+                    t.start()
+                for t in ts:
+                    t.join(120)
+            finally:
+                sys.setswitchinterval(old_iv)
+            for i, (a, b) in enumerate(zip(outs, r1)):
+                if a != b:
+                    fail = ('preemptive-threads-result-differs', 'thread %d %s(%s): %s vs sequential %s'
+                            % (i, calls[i][0], calls[i][1], short(a, 150), short(b, 150)))
+                    break
         nt = sched is not None and sched.contended_switches >= 3
         if sched is not None:
             classes.append('switches>=10' if sched.switches >= 10 else 'switches<10')
